@@ -444,7 +444,7 @@ pub fn run(ctx: &Ctx) -> (Report, Meta) {
     let mut rep = run_cases(ctx, n_hist, &history);
     let mut c2 = ctx.clone();
     c2.seed ^= 0xc16;
-    rep.merge(run_cases(&c2, n_rep, &|c, i, r, rep| repair_case(c, i + 1_000_000, r, rep)));
+    rep.merge({ let mut cb = c2.clone(); cb.case_base = 1_000_000; run_cases(&cb, n_rep, &|c, i, r, rep| repair_case(c, i + 1_000_000, r, rep)) });
     let meta = Meta {
         level: "exploration",
         rule: "case = history of 3-8 commands (backup of an evolving tree, forget, prune with generated options, merge, rewrite, config change) on a hot+cold pair of stores in one storage universe, half of them with a cold store that REJECTS reads of files that were not warmed up; an online monitor checks after EVERY storage event (i.e. at every prefix of the combined operation sequence) that each key/snapshot/index/tree-pack listed by cold is in hot with identical bytes and that no data pack is in hot (pack type from an independent trailer parse); the same history runs on a single-store twin and snapshot sets, contents, command results and check (without read-data) are compared; then restore and repair_index(read_all) must complete with zero rejected cold reads and every cold pack read must follow its warm-up in the log. Repair cases: a class of hot files is removed, open_only_cold+init_hot+repair must restore the invariant and all reads. distinct_nontrivial = distinct (command kind, cold mode) / repair class".to_string(),
